@@ -82,20 +82,6 @@ def pick(lst, idx):
     assume(False)
 
 
-def _fixlen(s, n):
-    return s
-
-
-def _fixlen_unused(s, n):
-    """Re-wrap a symbolic str of (assumed) length n as a proxy over a *concrete-length* list of symbolic code points.
-    Otherwise every index into a written piece that contains it is a solver query on the symbolic length (measured: 2 700 solver
-    checks and > 60 s per path for one face block).  Same string, same constraints; only the representation changes."""
-    if type(s) is str:
-        return s
-    from crosshair.libimpl.builtinslib import LazyIntSymbolicStr
-    return LazyIntSymbolicStr([ord(s[i]) for i in range(n)])
-
-
 def _rechunk(parts):
     """Rule (i) at a finer grain: a written piece that is a CrossHair proxy (concrete text + symbolic leaf + concrete text) is handed to
     the tokenizer as its constituent segments - real `str` for the concrete runs, a proxy only for the symbolic run - so that indexes
@@ -933,7 +919,7 @@ def h_vmf_w(hx: int, b0: bool, b1: bool, b2: bool, skel: int, preserve: bool, mi
 def obligations(tier):
     q = tier == "quick"
     lens = (0, 1) if q else (0, 1, 2)
-    B = 300 if q else 1800
+    B = 900 if q else 3600
     obls = []
     # Output: every slot x form; delay constants as concrete slices on the default slot
     sl = [{"n": n, "slot": s, "form": f, "tfix": (n + f) % len(TIMES)} for n in lens for s in OUT_SLOTS for f in range(len(OUT_FORMS))
